@@ -168,6 +168,22 @@ ADDENDA2 = {
             " Also decides that every registration takes a fresh last slot, so registration order is search order."),
 }
 
+# Additions after the third seeding round
+ADDENDA3 = {
+    "C03": ("; LIFO / same-slot rule for registers a rule parks", " Also decides that fixed registers a rule parks (push or executor slot) come back from the same place into the same register."),
+    "C04": ("; sibling agreement of the emulator and generated-C literals of index-dependent rules; thorough tier: regenerate the emulator and compare byte for byte",
+            " Also decides that the emulator and generated-C spellings of the 8 index-dependent rules differ only by offset + i -> i. Thorough: orc/orcemulateopcodes.{c,h} equal the output of generate-emulation built from the tree."),
+    "C06": ("; guarded-source rule for the emulator's code object", " Also decides that emulation takes the code object from program->orccode when a program is attached and from the A2 slot only for code-only executors."),
+    "C07": ("; field-fidelity rule on the constructors a wrapper rebuilds the program through (shared with C13)", " Also decides that size and alignment of arrays survive the rebuild of the program inside generated wrappers."),
+    "C09": ("; finite evaluation of the extent of every additional write into the code chunk", " Also decides that any further write into the chunk after the copy stays within the aligned chunk size for every code size."),
+    "C11": ("; premise check: rule lookup is stateless and selects rule sets by the subset test (C20-D2 re-run)", " Also decides the premise of sentence 1: a rule set is eligible only when all its required flags are present, and the lookup does not remember answers given under other flags."),
+    "C13": ("; finite evaluation of the guard that selects the short constant tag; thorough tier: regenerate orcbytecodes.h and compare",
+            " Also decides that the 32-bit constant tag is chosen only for constants the decoder reproduces. Thorough: orc/orcbytecodes.h equals the output of generate-bytecode built from the tree."),
+    "C14": ("; linear lower-bound rule for buffers that grow on demand", " Also decides that the error-log buffer grows by at least the length about to be written."),
+    "C15": ("; format/argument rule for the synthetic names of inline literals", " Also decides that the name under which an inline literal is registered contains the operand size and the literal token itself."),
+    "C20": ("; capacity rule for the copy of the opcode-set name", " Also decides that a set name as long as the prefix array allows is stored completely, so the set is found under that name."),
+}
+
 NOT_YET = "check under construction in this round; not claimed until its rules are exact on the current tree"
 NOT_APPLICABLE = {
     "C01": "value equivalence of JIT code and emulation over all inputs/register allocations: no structural necessary condition beyond what C03/C10/C11 decide; needs execution or translation validation (other technique families)",
@@ -187,6 +203,9 @@ def main():
                 tech, text, note = tech + a[0], text + a[1], note + a[2]
             if pid in ADDENDA2:
                 a = ADDENDA2[pid]
+                tech, text = tech + a[0], text + a[1]
+            if pid in ADDENDA3:
+                a = ADDENDA3[pid]
                 tech, text = tech + a[0], text + a[1]
             checks.append({
                 "property_id": pid,
